@@ -345,9 +345,19 @@ class Exec(Engine):
         raise OutOfSubset("handler type")
 
     # ------------------------------------------------------------------ loops
+    def loop_ordinal(self, stmt):
+        """Static ordinal of a loop statement within its function (source order)."""
+        fn = self.fn
+        cache = getattr(self, "_loop_ids", None)
+        if cache is None or cache[0] is not fn:
+            loops = [n for n in ast.walk(fn) if isinstance(n, (ast.For, ast.While))]
+            loops.sort(key=lambda n: (n.lineno, n.col_offset))
+            cache = (fn, {id(n): i for i, n in enumerate(loops)})
+            self._loop_ids = cache
+        return cache[1][id(stmt)]
+
     def loop_contract(self, stmt):
-        k = self.loop_ord
-        self.loop_ord += 1
+        k = self.loop_ordinal(stmt)
         header = ("while " + ast.unparse(stmt.test)) if isinstance(stmt, ast.While) else \
                  ("for " + ast.unparse(stmt.target) + " in " + ast.unparse(stmt.iter))
         lc = self.c.loops.get(k) if self.c else None
@@ -448,8 +458,7 @@ class Exec(Engine):
 
     def for_over(self, stmt, st, coll: V):
         if coll.t[0] in ("list", "tuple"):
-            # concrete length: unroll (no contract needed); still consumes a loop ordinal
-            self.loop_ord += 1
+            # concrete length: unroll (no contract needed)
             states = [st]
             for e in coll.x:
                 nxt = []
